@@ -321,6 +321,42 @@ func (p *Program) same(a, b ssa.Value) bool {
 	if okA && okB {
 		return p.expr(ca) == p.expr(cb) && types.Identical(ca.Type(), cb.Type())
 	}
+	// two loads of the same element (x[i] read twice) of a slice nothing in the function stores into
+	ua, okA2 := ra.(*ssa.UnOp)
+	ub, okB2 := rb.(*ssa.UnOp)
+	if okA2 && okB2 && ua.Op == token.MUL && ub.Op == token.MUL {
+		ia, okA3 := ua.X.(*ssa.IndexAddr)
+		ib, okB3 := ub.X.(*ssa.IndexAddr)
+		if okA3 && okB3 && p.resolve(ia.X) == p.resolve(ib.X) && p.resolve(ia.Index) == p.resolve(ib.Index) && ua.Parent() == ub.Parent() {
+			if _, isSlice := ia.X.Type().Underlying().(*types.Slice); isSlice {
+				base := p.resolve(ia.X)
+				for _, b := range ua.Parent().Blocks {
+					for _, in := range b.Instrs {
+						var target ssa.Value
+						switch x := in.(type) {
+						case *ssa.Store:
+							if sa, ok := x.Addr.(*ssa.IndexAddr); ok {
+								target = p.resolve(sa.X)
+							}
+						case *ssa.Call:
+							if p.calleeKey(x.Common()) == "builtin:copy" {
+								target = p.resolve(x.Common().Args[0])
+								if sl, ok := target.(*ssa.Slice); ok {
+									target = p.resolve(sl.X)
+								}
+							}
+						}
+						// a write that can execute between the two reads separates them; one that is over before the
+						// first read (the slice being filled before the loop that reads it) does not
+						if target == base && ((reachable(ua, in, nil) && reachable(in, ub, nil)) || (reachable(ub, in, nil) && reachable(in, ua, nil))) {
+							return false
+						}
+					}
+				}
+				return true
+			}
+		}
+	}
 	return false
 }
 
@@ -685,8 +721,9 @@ func walkFromEntry(fn *ssa.Function, visit func(in ssa.Instruction) bool) {
 }
 
 type walkPos struct {
-	b *ssa.BasicBlock
-	i int
+	b      *ssa.BasicBlock
+	i      int
+	forced int // successor forced by the edge the block was entered through (-1: none)
 }
 
 type walker struct {
@@ -695,9 +732,50 @@ type walker struct {
 	root  *ssa.Function // for walkFromEntry: returns of root are exits even if root is a helper
 }
 
-func (w *walker) walk(b *ssa.BasicBlock, start int) {
-	key := walkPos{b, start}
-	if w.seen[key] {
+func (w *walker) walk(b *ssa.BasicBlock, start int) { w.walkF(b, start, -1) }
+
+// forcedSucc: block s ends in a branch on a boolean phi of s (possibly negated) whose edge from pred is a constant —
+// entered from pred, only one successor is possible (`ok := false; for !ok { … }` runs its body at least once).
+func forcedSucc(s, pred *ssa.BasicBlock) int {
+	if len(s.Instrs) == 0 || len(s.Succs) != 2 {
+		return -1
+	}
+	iff, ok := s.Instrs[len(s.Instrs)-1].(*ssa.If)
+	if !ok {
+		return -1
+	}
+	cond, neg := iff.Cond, false
+	for k := 0; k < 3; k++ {
+		if u, ok := cond.(*ssa.UnOp); ok && u.Op == token.NOT {
+			cond, neg = u.X, !neg
+			continue
+		}
+		break
+	}
+	ph, ok := cond.(*ssa.Phi)
+	if !ok || ph.Block() != s {
+		return -1
+	}
+	for i, q := range s.Preds {
+		if q != pred {
+			continue
+		}
+		c, ok := ph.Edges[i].(*ssa.Const)
+		if !ok || c.Value == nil || c.Value.Kind() != constant.Bool {
+			return -1
+		}
+		v := constant.BoolVal(c.Value) != neg
+		if v {
+			return 0
+		}
+		return 1
+	}
+	return -1
+}
+
+func (w *walker) walkF(b *ssa.BasicBlock, start int, forced int) {
+	key := walkPos{b, start, forced}
+	if w.seen[key] || (forced >= 0 && w.seen[walkPos{b, start, -1}]) {
 		return
 	}
 	w.seen[key] = true
@@ -722,8 +800,11 @@ func (w *walker) walk(b *ssa.BasicBlock, start int) {
 			return
 		}
 	}
-	for _, s := range b.Succs {
-		w.walk(s, 0)
+	for k, s := range b.Succs {
+		if forced >= 0 && k != forced {
+			continue
+		}
+		w.walkF(s, 0, forcedSucc(s, b))
 	}
 }
 
@@ -1200,10 +1281,62 @@ func (p *Program) res(ret *ssa.Return, i int) ssa.Value {
 	instrs := ret.Block().Instrs
 	for k := len(instrs) - 1; k >= 0; k-- {
 		if st, ok := instrs[k].(*ssa.Store); ok && st.Addr == ssa.Value(a) {
+			// a named result returned by name is loaded and stored back: look for the assignment that reaches it
+			if ld, isLoad := st.Val.(*ssa.UnOp); isLoad && ld.Op == token.MUL {
+				if a2, isAlloc := ld.X.(*ssa.Alloc); isAlloc {
+					if rv := p.cellValueAt(a2, ld); rv != nil {
+						return rv
+					}
+				}
+			}
 			return st.Val
 		}
 	}
+	if rv := p.cellValueAt(a, u); rv != nil {
+		return rv
+	}
 	return v
+}
+
+// cellValueAt: the value of a local cell (named result, captured variable) at instruction `at`, if one store to
+// the cell dominates `at` and no other store can execute between the two; nil if that cannot be established.
+func (p *Program) cellValueAt(a *ssa.Alloc, at ssa.Instruction) ssa.Value {
+	if a.Referrers() == nil {
+		return nil
+	}
+	var stores []*ssa.Store
+	for _, ref := range *a.Referrers() {
+		switch x := ref.(type) {
+		case *ssa.Store:
+			if x.Addr == ssa.Value(a) {
+				stores = append(stores, x)
+			}
+		case *ssa.UnOp, *ssa.DebugRef:
+		default:
+			return nil // address taken: other writers are possible
+		}
+	}
+	var last *ssa.Store
+	for _, st := range stores {
+		if st == at || !dominates(st, at) {
+			continue
+		}
+		if last == nil || dominates(last, st) {
+			last = st
+		}
+	}
+	if last == nil {
+		return nil
+	}
+	for _, st := range stores {
+		if st != last && reachable(last, st, nil) && reachable(st, at, nil) {
+			return nil
+		}
+	}
+	if ld, isLoad := last.Val.(*ssa.UnOp); isLoad && ld.Op == token.MUL && ld.X == ssa.Value(a) {
+		return nil
+	}
+	return last.Val
 }
 
 // panicType returns the dynamic type of a panic operand.
@@ -1774,4 +1907,54 @@ func partlyForwarded(ret *ssa.Return) *ssa.Call {
 		return nil
 	}
 	return call
+}
+
+// evalWith folds an integer expression; leaves are valued by f (which may decline).
+func (p *Program) evalWith(v ssa.Value, f func(ssa.Value) (int64, bool), depth int) (int64, bool) {
+	if depth > 12 {
+		return 0, false
+	}
+	v = p.stripConv(v)
+	if c, ok := f(v); ok {
+		return c, true
+	}
+	switch x := v.(type) {
+	case *ssa.Const:
+		return constInt(x)
+	case *ssa.BinOp:
+		a, ok1 := p.evalWith(x.X, f, depth+1)
+		b, ok2 := p.evalWith(x.Y, f, depth+1)
+		if !ok1 || !ok2 {
+			return 0, false
+		}
+		switch x.Op {
+		case token.ADD:
+			return a + b, true
+		case token.SUB:
+			return a - b, true
+		case token.MUL:
+			return a * b, true
+		case token.QUO:
+			if b == 0 {
+				return 0, false
+			}
+			return a / b, true
+		case token.REM:
+			if b == 0 {
+				return 0, false
+			}
+			return a % b, true
+		case token.SHR:
+			if b < 0 || b > 62 {
+				return 0, false
+			}
+			return a >> uint(b), true
+		case token.SHL:
+			if b < 0 || b > 62 {
+				return 0, false
+			}
+			return a << uint(b), true
+		}
+	}
+	return 0, false
 }
